@@ -21,9 +21,13 @@ func Tie(data []byte, off, l int) {
 // Leaf constrains data[off:] to start with a well-formed leaf item -- an unsigned integer in
 // its 1-, 2- or 3-byte head form, value symbolic -- and returns its length. The form is
 // chosen by a symbolic selector, so the executor forks and offsets stay concrete.
-func Leaf(data []byte, off int, name string) int {
+func Leaf(data []byte, off int, name string) int { return LeafK(data, off, name, 2) }
+
+// LeafK is Leaf with the selector ranging over 0..maxKind: 0..2 unsigned integer in 1/2/3
+// bytes, 3 negative integer (one byte), 4 one-byte byte string (two bytes).
+func LeafK(data []byte, off int, name string, maxKind uint8) int {
 	k := sym.U8(name + "_form")
-	sym.Assume(k <= 2)
+	sym.Assume(k <= maxKind)
 	l := 1
 	switch {
 	case k == 0:
@@ -33,10 +37,17 @@ func Leaf(data []byte, off int, name string) int {
 		l = 2
 		sym.Assume(off+2 <= len(data))
 		sym.Assume(data[off] == 0x18)
-	default:
+	case k == 2:
 		l = 3
 		sym.Assume(off+3 <= len(data))
 		sym.Assume(data[off] == 0x19)
+	case k == 3:
+		sym.Assume(off+1 <= len(data))
+		sym.Assume(data[off] >= 0x20 && data[off] < 0x38)
+	default:
+		l = 2
+		sym.Assume(off+2 <= len(data))
+		sym.Assume(data[off] == 0x41)
 	}
 	Tie(data, off, l)
 	return l
